@@ -103,6 +103,7 @@ def _setup():
     ATTRS = ('title', 'message_template', 'else_message_template', 'muted', 'category', 'priority', 'kind',
              'valence', 'score', 'correct', 'justification')
     SNAP = {c: {a: getattr(c, a) for a in ATTRS} for c in CLASSES}
+    globals()['OWN'] = {c: {a: (a in c.__dict__) for a in ATTRS} for c in CLASSES}
     # the curated op alphabet for histories
     pick = [i for i, (c, a, k) in enumerate(CASES)
             if (c in (CondT, CondF, CondX, MsgX, Parent, Child, GrandChild, g.gently) and
@@ -243,6 +244,11 @@ def check_restored(ctx, hist, op):
             if cur != v or type(cur) is not type(v):
                 ctx.fail({'symptom': 'class attribute not restored after clear', 'class': c.__name__, 'attr': a,
                           'own': a in c.__dict__}, history=hist, got=repr(cur)[:80], want=repr(v)[:80], after=op)
+            elif (a in c.__dict__) != OWN[c][a]:
+                # same value, but an inherited attribute is now pinned on the subclass (or an own one removed):
+                # the class no longer follows its parent
+                ctx.fail({'symptom': 'class attribute restored by value but not by ownership', 'class': c.__name__,
+                          'attr': a, 'own_now': a in c.__dict__}, history=hist, after=op)
 
 
 def _reset_everything():
@@ -251,6 +257,8 @@ def _reset_everything():
     cmds.clear_report()
     for c, attrs in SNAP.items():
         for a, v in attrs.items():
+            if (a in c.__dict__) and not OWN[c][a]:
+                delattr(c, a)
             if getattr(c, a) != v:
                 setattr(c, a, v)
         if '_override_backups' in c.__dict__ and c._override_backups:
